@@ -201,9 +201,9 @@ Definition export_fields (e : entry) : list field := header_fields e ++ enumerat
 Definition print_export_with (pf : field -> bytes) (e : entry) : bytes :=
   concat (map print_field_text (header_fields e)) ++ concat (map pf (enumerated e)) ++ [NL].
 
-Definition render_export (e : entry) : bytes := print_export_with print_field_safe e.
+Definition render_export : entry -> bytes := print_export_with print_field_safe.
 (* next_export before the repair (F10): every data object in the text form *)
-Definition render_export_textonly (e : entry) : bytes := print_export_with print_field_text e.
+Definition render_export_textonly : entry -> bytes := print_export_with print_field_text.
 
 (* ------------------------------------------------------------------ export parser *)
 (* Journal Export Format (systemd.io/JOURNAL_EXPORT_FORMATS): fields one per
